@@ -172,7 +172,8 @@ impl PushCondition {
                     None => return false,
                 };
 
-                value.matches_pattern(&context.user_display_name, true)
+                // The display name is not a glob, `*` and `?` in it only match themselves.
+                value.to_lowercase().contains_word(&context.user_display_name.to_lowercase())
             }
             Self::RoomMemberCount { is } => is.contains(&context.member_count),
             Self::SenderNotificationPermission { key } => {
@@ -313,6 +314,12 @@ trait StrExt {
     /// The match is case sensitive.
     fn matches_word(&self, pattern: &str) -> bool;
 
+    /// Whether this string contains `word`, with word boundaries.
+    ///
+    /// The word is not a glob, its characters only match themselves. Word boundaries and case
+    /// sensitivity are the same as for [`matches_word()`](Self::matches_word).
+    fn contains_word(&self, word: &str) -> bool;
+
     /// Translate the wildcards in `self` to a regex syntax.
     ///
     /// `self` must only contain wildcards.
@@ -407,41 +414,52 @@ impl StrExt for str {
             };
             re.is_match(self.as_bytes())
         } else {
-            match self.find(pattern) {
-                Some(start) => {
-                    let end = start + pattern.len();
+            self.contains_word(pattern)
+        }
+    }
 
-                    // Look if the match has word boundaries.
-                    let word_boundary_start = !self.char_at(start).is_word_char()
-                        || !self.find_prev_char(start).is_some_and(|c| c.is_word_char());
+    fn contains_word(&self, pattern: &str) -> bool {
+        if self == pattern {
+            return true;
+        }
+        if pattern.is_empty() {
+            return false;
+        }
 
-                    if word_boundary_start {
-                        let word_boundary_end = end == self.len()
-                            || !self.find_prev_char(end).unwrap().is_word_char()
-                            || !self.char_at(end).is_word_char();
+        match self.find(pattern) {
+            Some(start) => {
+                let end = start + pattern.len();
 
-                        if word_boundary_end {
-                            return true;
-                        }
+                // Look if the match has word boundaries.
+                let word_boundary_start = !self.char_at(start).is_word_char()
+                    || !self.find_prev_char(start).is_some_and(|c| c.is_word_char());
+
+                if word_boundary_start {
+                    let word_boundary_end = end == self.len()
+                        || !self.find_prev_char(end).unwrap().is_word_char()
+                        || !self.char_at(end).is_word_char();
+
+                    if word_boundary_end {
+                        return true;
                     }
-
-                    // Find next word.
-                    let non_word_str = &self[start..];
-                    let non_word = match non_word_str.find(|c: char| !c.is_word_char()) {
-                        Some(pos) => pos,
-                        None => return false,
-                    };
-
-                    let word_str = &non_word_str[non_word..];
-                    let word = match word_str.find(|c: char| c.is_word_char()) {
-                        Some(pos) => pos,
-                        None => return false,
-                    };
-
-                    word_str[word..].matches_word(pattern)
                 }
-                None => false,
+
+                // Find next word.
+                let non_word_str = &self[start..];
+                let non_word = match non_word_str.find(|c: char| !c.is_word_char()) {
+                    Some(pos) => pos,
+                    None => return false,
+                };
+
+                let word_str = &non_word_str[non_word..];
+                let word = match word_str.find(|c: char| c.is_word_char()) {
+                    Some(pos) => pos,
+                    None => return false,
+                };
+
+                word_str[word..].contains_word(pattern)
             }
+            None => false,
         }
     }
 
